@@ -207,6 +207,12 @@ func RunWorld(env *Env, w *World) *Outcome {
 		}
 		return out
 	}
+	if last := w.Lifetimes[len(w.Lifetimes)-1]; w.Differential == "warm-up" && last.Mode == "tasks" && len(last.Faults) > 0 {
+		// the extra test changes the schedule the seed draws; with an injected fault that
+		// tears a file two concurrent tests share, which of them meets the damage is the
+		// schedule's choice, not cross-talk: such a world is judged by the model only
+		return out
+	}
 	if w.Differential == "warm-up" && out.Infra == "" {
 		// the same world, but in the last lifetime an extra test that runs first uses every
 		// Config (and the package-level functions) in reverse order: the calls of the
@@ -548,12 +554,16 @@ func (st *wstate) runLifetime(i int, l *scen.Lifetime) {
 	type ck struct{ c, e int }
 	opsOf := map[ck][]scen.Op{}
 	faulted := map[ck]bool{}
+	hardFault := map[ck]bool{} // hit by a fault other than "this file is read-only"
 	anyFault := false
 	for _, op := range rep.Ops {
 		k := ck{op.Call, op.Exec}
 		opsOf[k] = append(opsOf[k], op)
 		if op.Fault {
 			faulted[k] = true
+			if !op.RO {
+				hardFault[k] = true
+			}
 			anyFault = true
 			out.Stats.Faults[op.Kind+":"+faultName(l, op)]++
 			out.Stats.Probes["fault_fired"]++
@@ -623,7 +633,14 @@ func (st *wstate) runLifetime(i int, l *scen.Lifetime) {
 			return
 		}
 		out.Stats.Outcomes[obs]++
-		if faulted[key] && ex.Why != "matcher" && ex.Why != "invalid" {
+		// (a read-only snapshot file does not hinder a call that has nothing to store: a call
+		// the model expects to pass, or to fail without writing, and that met no other fault is
+		// judged in full - it had no reason to ask for write access)
+		roNoWrite := faulted[key] && !hardFault[key] && !ex.Dirty && (ex.Outcome == model.Passed || ex.Outcome == model.Failed)
+		if roNoWrite {
+			out.Stats.Probes["readonly_file_call_judged_in_full"]++
+		}
+		if faulted[key] && !roNoWrite && ex.Why != "matcher" && ex.Why != "invalid" {
 			// (a call whose matchers fail or whose input is invalid is decided before any disk
 			// access: a fault it meets all the same does not change what it has to report)
 			// narrow oracle under faults: one outcome signal (checked above); nothing on CI
@@ -773,6 +790,9 @@ func (st *wstate) runLifetime(i int, l *scen.Lifetime) {
 		props := []string{"C06"}
 		if strings.Contains(res.Races[0], "Config") || strings.Contains(res.Races[0], "matchStandaloneJSON.go") {
 			props = append(props, "C12")
+		}
+		if strings.Contains(res.Races[0], "Matchers") {
+			props = append(props, "C17") // a race on the matcher path
 		}
 		if strings.Contains(res.Races[0], "tandalone") {
 			props = append(props, "C19") // a race on the standalone path
@@ -1075,6 +1095,14 @@ func matcherName(kind string) string {
 }
 
 func faultName(l *scen.Lifetime, op scen.Op) string {
+	if op.RO {
+		for _, f := range l.Faults {
+			if f.Kind == "aofile" && strings.Contains(op.Path, f.PathSuffix) {
+				return "aofile"
+			}
+		}
+		return "rofile"
+	}
 	for _, f := range l.Faults {
 		if f.Kind == op.Kind {
 			if f.Kill {
